@@ -621,3 +621,182 @@ Fixpoint ft_run (t : ftrie) (ops : list op) : res (ftrie * list out) :=
   end.
 
 Definition ft_history (F : list nat) (ops : list op) : res (ftrie * list out) := ft_run (ft_new F) ops.
+
+(* ------------------------------------------------------------------------------------------ *)
+(* FilterMap.hpp (TrieType = Trie) and the IndexMap it returns.  items_[id] is the item emplaced
+   together with id; iterating the IndexMap dereferences items_[id] (the id under the cursor) unchecked.
+   The const and the non-const overloads are separate functions in the C++ and separate
+   definitions here.                                                                            *)
+
+Record fmap (A : Type) : Type := mkFM { fm_ids : trie; fm_items : list A }.
+Arguments mkFM {A} _ _.
+Arguments fm_ids {A} _.
+Arguments fm_items {A} _.
+
+(* src: FilterMap.hpp:FilterMap(Factors f) *)
+Definition fm_new {A} (F : list nat) : res (fmap A) := bind (trie_new F) (fun t => Ok (mkFM t [])).
+
+(* src: FilterMap.hpp:emplace — ids_.insert(pf); items_.emplace_back(args...) *)
+Definition fm_emplace {A} (m : fmap A) (pf : pfactors) (x : A) : res (fmap A) :=
+  bind (trie_insert (fm_ids m) pf) (fun '(t', _) => Ok (mkFM t' (fm_items m ++ [x]))).
+
+(* src: IndexMap.hpp: for (auto & x : indexMap) — the dereference operator returns items_[id] for the id under the cursor *)
+Fixpoint im_items {A} (ids : list nat) (items : list A) : res (list A) :=
+  match ids with
+  | [] => Ok []
+  | id :: rest =>
+    match nth_error items id with
+    | None => UB
+    | Some x => bind (im_items rest items) (fun l => Ok (x :: l))
+    end
+  end.
+
+(* src: FilterMap.hpp:filter(const Factors & f)            -> Iterable(ids_.filter(f), items_) *)
+Definition fm_filterF {A} (m : fmap A) (f : list nat) : res (list A) :=
+  bind (trie_filterF true (fm_ids m) f 0) (fun ids => im_items ids (fm_items m)).
+(* src: FilterMap.hpp:filter(const Factors & f) const      -> ConstIterable(ids_.filter(f), items_) *)
+Definition fm_filterF_const {A} (m : fmap A) (f : list nat) : res (list A) :=
+  bind (trie_filterF true (fm_ids m) f 0) (fun ids => im_items ids (fm_items m)).
+(* src: FilterMap.hpp:filter(const Factors & f, size_t offset) *)
+Definition fm_filterFO {A} (m : fmap A) (f : list nat) (offset : nat) : res (list A) :=
+  bind (trie_filterF true (fm_ids m) f offset) (fun ids => im_items ids (fm_items m)).
+(* src: FilterMap.hpp:filter(const Factors & f, size_t offset) const *)
+Definition fm_filterFO_const {A} (m : fmap A) (f : list nat) (offset : nat) : res (list A) :=
+  bind (trie_filterF true (fm_ids m) f offset) (fun ids => im_items ids (fm_items m)).
+(* src: FilterMap.hpp:filter(const PartialFactors & pf) *)
+Definition fm_filterPf {A} (m : fmap A) (pf : pfactors) : res (list A) :=
+  bind (trie_filterPf true (fm_ids m) pf) (fun ids => im_items ids (fm_items m)).
+(* src: FilterMap.hpp:filter(const PartialFactors & pf) const *)
+Definition fm_filterPf_const {A} (m : fmap A) (pf : pfactors) : res (list A) :=
+  bind (trie_filterPf true (fm_ids m) pf) (fun ids => im_items ids (fm_items m)).
+
+(* src: FilterMap.hpp:size — items_.size() *)
+Definition fm_size {A} (m : fmap A) : nat := length (fm_items m).
+
+(* a FilterMap built by a sequence of emplace calls *)
+Fixpoint fm_fold {A} (m : fmap A) (entries : list (pfactors * A)) : res (fmap A) :=
+  match entries with
+  | [] => Ok m
+  | (pf, x) :: rest => bind (fm_emplace m pf x) (fun m' => fm_fold m' rest)
+  end.
+Definition fm_build {A} (F : list nat) (entries : list (pfactors * A)) : res (fmap A) :=
+  bind (fm_new F) (fun m => fm_fold m entries).
+
+(* ------------------------------------------------------------------------------------------ *)
+(* FasterTrie.cpp:FasterTrie::reconstruct.  The three std::shuffle calls are inputs:
+     ord0   = orders_[0] after its shuffle (the order in which the factors are visited),
+     ordv   = orders_[o+1] per factor o, as used (the order in which the values are tried),
+     keysS  = keys_ with every bucket in the order it has after its shuffle (the shuffles are in
+              place, so this is also the bucket order the object is left with when remove = false).
+   Hypothesis of the theorems: keysS is, bucket by bucket, a permutation of keys_.               *)
+
+(* f[k] = v for the (k, v) of a PartialFactors, unchecked:  f[pf.first[i]] = pf.second[i] *)
+Fixpoint rc_assign (f keys vals : list nat) : res (list nat) :=
+  match keys with
+  | [] => Ok f
+  | k :: ks =>
+    match vals with
+    | [] => UB
+    | v :: vs => match upd f k (fun _ => v) with
+                 | None => UB
+                 | Some f' => rc_assign f' ks vs
+                 end
+    end
+  end.
+
+(* the match loop: if (f[id] < F[id] && entrypf.second[q] != f[id]) { match = false; break; } *)
+Fixpoint rc_match (F f keys vals : list nat) : res bool :=
+  match keys with
+  | [] => Ok true
+  | k :: ks =>
+    match nth_error f k, nth_error F k with
+    | Some fk, Some Fk =>
+      if fk <? Fk
+      then match vals with
+           | [] => UB
+           | v :: vs => if v =? fk then rc_match F f ks vs else Ok false
+           end
+      else rc_match F f ks (tl vals)
+    | _, _ => UB
+    end
+  end.
+
+(* the loop over one (already shuffled) bucket:  for (k = 0; k < keysV->size(); )
+   todo = entries from position k on, kept = entries before k; with remove the matched entry is
+   overwritten by the back of the vector, which is therefore examined next.
+   n bounds the number of iterations (n = todo's length is exact).
+   Result: bucket afterwards, f, entries, done *)
+Fixpoint rc_bucket (n : nat) (F : list nat) (remove : bool) (todo kept : list fentry)
+         (f : list nat) (acc : list fentry) (done : bool)
+  : res (list fentry * list nat * list fentry * bool) :=
+  match todo with
+  | [] => Ok (kept, f, acc, done)
+  | e :: rest =>
+    match n with
+    | 0 => Ok (kept ++ todo, f, acc, done)
+    | S n' =>
+      bind (rc_match F f (fst (snd e)) (snd (snd e))) (fun m =>
+        if m then
+          bind (rc_assign f (fst (snd e)) (snd (snd e))) (fun f' =>
+            if remove
+            then rc_bucket n' F remove
+                           (match rest with [] => [] | _ :: _ => last rest e :: removelast rest end)
+                           kept f' (acc ++ [e]) true
+            else rc_bucket n' F remove rest (kept ++ [e]) f' (acc ++ [e]) true)
+        else rc_bucket n' F remove rest (kept ++ [e]) f acc done)
+    end
+  end.
+
+(* the do { … } while (true) over the values of one factor; stops after the first bucket in which
+   something matched *)
+Fixpoint rc_values (vorder : list nat) (F : list nat) (remove : bool) (row : list (list fentry))
+         (f : list nat) (acc : list fentry) : res (list (list fentry) * list nat * list fentry) :=
+  match vorder with
+  | [] => Ok (row, f, acc)
+  | v :: vs =>
+    match nth_error row v with
+    | None => UB                                        (* keys[orders_[o+1][j]] *)
+    | Some b =>
+      bind (rc_bucket (length b) F remove b [] f acc false) (fun '(b', f', acc', done) =>
+        match upd row v (fun _ => b') with
+        | None => UB
+        | Some row' => if done then Ok (row', f', acc') else rc_values vs F remove row' f' acc'
+        end)
+    end
+  end.
+
+(* body of  for (auto o : orders_[0]) *)
+Definition rc_factor (F : list nat) (remove : bool) (ordv : list (list nat))
+           (keys : list (list (list fentry))) (o : nat) (f : list nat) (acc : list fentry)
+  : res (list (list (list fentry)) * list nat * list fentry) :=
+  match nth_error keys o, nth_error f o, nth_error F o with
+  | Some row, Some fo, Some Fo =>
+    bind (if fo <? Fo then rc_values [fo] F remove row f acc
+          else match nth_error ordv o with
+               | Some (v0 :: vs) => rc_values (v0 :: vs) F remove row f acc
+               | _ => UB                                (* orders_[o+1][0] *)
+               end)
+         (fun '(row', f', acc') =>
+            match upd keys o (fun _ => row') with
+            | None => UB
+            | Some keys' => Ok (keys', f', acc')
+            end)
+  | _, _, _ => UB
+  end.
+
+Fixpoint rc_factors (ord0 : list nat) (F : list nat) (remove : bool) (ordv : list (list nat))
+         (keys : list (list (list fentry))) (f : list nat) (acc : list fentry)
+  : res (list (list (list fentry)) * list nat * list fentry) :=
+  match ord0 with
+  | [] => Ok (keys, f, acc)
+  | o :: os => bind (rc_factor F remove ordv keys o f acc) (fun '(keys', f', acc') =>
+                 rc_factors os F remove ordv keys' f' acc')
+  end.
+
+(* src: FasterTrie.cpp:FasterTrie::reconstruct -> (object afterwards, entries, factors) *)
+Definition ft_reconstruct (t : ftrie) (q : pfactors) (remove : bool)
+           (ord0 : list nat) (ordv : list (list nat)) (keysS : list (list (list fentry)))
+  : res (ftrie * list fentry * list nat) :=
+  bind (rc_assign (fF t) (fst q) (snd q)) (fun f0 =>
+    bind (rc_factors ord0 (fF t) remove ordv keysS f0 []) (fun '(keys', f', acc') =>
+      Ok (mkFT (fF t) (fcounter t) keys', acc', f'))).
